@@ -41,6 +41,7 @@ case is counted out_of_scope("library-raises-...") -- that is the other property
 witness, not a delivery failure.
 """
 import io
+import datetime
 import json
 import os
 import random
@@ -199,6 +200,12 @@ RAW_DOCS = [
     ("comment", "# head\na: 1  # tail\nb:\n  - 1\n  # mid\n  - a\n"),
     ("utf8", "a: \u00e9t\u00e9\nb: [\u00fc]\n"),
 ]
+
+
+# bare dates and timestamps, matched as leaves (yaml-get only)
+DATE_DOC = "a: 2001-12-14\nb: [2001-12-14T21:59:43Z, 2002-01-01]\nc: {a: 2001-12-14 21:59:43.10 -5}\n"
+DATE_PATHS = [[("key", "a")], [("key", "b"), ("idx", 0)], [("key", "b"), ("idx", 1)], [("key", "c"), ("key", "a")],
+              [("key", "b"), ("all",)], [("trav",)]]
 
 
 def doc_templates(tier, rng):
@@ -432,6 +439,17 @@ def get_line_ok(node, line):
         return line.lower() == ("true" if node else "false"), "bool"   # from-code spelling
     if isinstance(node, str):
         return line == str(node).replace("\n", "\\n"), "str"        # from-code: newline escape
+    if type(node).__name__ == "AnchoredDate":
+        return line == node.date().isoformat(), "date"      # a bare date is printed as the date it is
+    if isinstance(node, datetime.datetime):
+        # a timestamp: an ISO 8601 line naming the same instant (ruamel keeps the UTC-normalised naive value)
+        try:
+            got = datetime.datetime.fromisoformat(line)
+        except ValueError:
+            return False, "timestamp"
+        if got.tzinfo is not None:
+            got = got.astimezone(datetime.timezone.utc).replace(tzinfo=None)
+        return got == node.replace(tzinfo=None), "timestamp"
     if isinstance(node, float):
         try:
             return float(line) == float(node), "float"
@@ -1193,6 +1211,8 @@ def build_cases(tier, seed):
     for name, text in RAW_DOCS:
         for segs in GET_PATHS:
             cases.append({"tool": "get", "doc": text, "fmt": "block", "shape": "raw-" + name, "segs": segs})
+    for segs in DATE_PATHS:
+        cases.append({"tool": "get", "doc": DATE_DOC, "fmt": "block", "shape": "raw-dates", "segs": segs})
     for bad in INVALID_DOCS[:4]:
         cases.append({"tool": "get", "doc": bad, "fmt": "block", "shape": "invalid", "segs": [("key", "a")]})
     # --- set: container-rooted docs x paths x ops
